@@ -49,7 +49,7 @@ example : ∀ n ∈ List.range (encodeE 4 rawE (itemsToBytes 2 wItems)).length,
     checkDeclared 2 3 (noCompReadE 4 rawE ((encodeE 4 rawE (itemsToBytes 2 wItems)).take n)) = none := by
   decide +kernel
 
--- NOT claimed (negation witness for the compressed case with an EMPTY array): the header of a compressed
+-- `items ≠ []` in C18_payload_short_compressed / C18_array_never_equal is necessary (negation witness, EMPTY array): the header of a compressed
 -- zero-length array is [0 blocks, block size, 0]; its first two entries alone already read as the complete
 -- (empty) array — nothing is lost, but "strict prefix ⇒ rejected" is false without `items ≠ []`
 example : checkDeclared 1 0 (compReadE 4 rawE (fun _ => none) [0, 0, 0, 0, 16, 0, 0, 0]) = some [] := by
@@ -61,5 +61,90 @@ example :
     checkDeclared 1 2 (compReadE 4 rawE dec ([1, 0, 0, 0, 16, 0, 0, 0, 2, 0, 0, 0, 3, 0, 0, 0] ++ [9, 9, 9])) = some [1, 2] ∧
     checkDeclared 1 2 (compReadE 4 rawE dec ([1, 0, 0, 0, 16, 0, 0, 0, 2, 0, 0, 0, 3, 0, 0, 0] ++ [9, 9])) = none := by
   decide +kernel
+
+/-! ### compressed arrays: the hypotheses of C18_payload_short_compressed are satisfiable -/
+
+/-- a toy codec given as a table: two blocks, compressed forms of equal length (neither is a prefix of the other) -/
+def wCompress (b : Bytes) : Bytes := if b = [1, 2, 3, 4] then [9, 8, 7] else if b = [5, 6] then [7, 7, 1] else [0]
+def wDecompress (c : Bytes) : Option Bytes :=
+  if c = [9, 8, 7] then some [1, 2, 3, 4] else if c = [7, 7, 1] then some [5, 6] else none
+def wBlocks : List Bytes := [[1, 2, 3, 4], [5, 6]]
+
+theorem wCodecOK : CodecOK wCompress wDecompress 4 wBlocks := by
+  apply CodecOK.of_raises (by decide) (by decide) (by decide)
+  intro b hb p hp hne
+  have hl : (wCompress b).length = 3 := by
+    simp only [wBlocks, List.mem_cons, List.not_mem_nil, or_false] at hb
+    rcases hb with rfl | rfl <;> rfl
+  have hlt : p.length < 3 := by
+    have hle := List.IsPrefix.length_le hp
+    rcases Nat.lt_or_eq_of_le hle with h | h
+    · omega
+    · exact absurd (List.IsPrefix.eq_of_length hp h) hne
+  unfold wDecompress
+  rw [if_neg (by intro e; rw [e] at hlt; simp at hlt), if_neg (by intro e; rw [e] at hlt; simp at hlt)]
+
+-- three uint16 items in two blocks (4 + 2 bytes), header UInt32, both encoders: the complete stream is read back …
+example : wBlocks.flatten = itemsToBytes 2 [513, 1027, 1541] := by decide
+example : ∀ E ∈ [b64E, rawE], checkDeclared 2 3 (compReadE 4 E wDecompress (encodeCompE 4 E wCompress 4 2 wBlocks))
+    = some [513, 1027, 1541] := by
+  intro E hE
+  simp only [List.mem_cons, List.not_mem_nil, or_false] at hE
+  rcases hE with rfl | rfl <;> decide +kernel
+-- … and every strict prefix is rejected (what the theorem says; here by evaluation, all 26 / 40 cuts)
+example : ∀ n ∈ List.range (encodeCompE 4 rawE wCompress 4 2 wBlocks).length,
+    checkDeclared 2 3 (compReadE 4 rawE wDecompress ((encodeCompE 4 rawE wCompress 4 2 wBlocks).take n)) = none := by
+  decide +kernel
+example : ∀ n ∈ List.range (encodeCompE 4 b64E wCompress 4 2 wBlocks).length,
+    checkDeclared 2 3 (compReadE 4 b64E wDecompress ((encodeCompE 4 b64E wCompress 4 2 wBlocks).take n)) = none := by
+  decide +kernel
+-- the theorem applied to this instance (all hypotheses discharged)
+example (avail : List Nat) (hp : avail <+: encodeCompE 4 rawE wCompress 4 2 wBlocks)
+    (hne : avail ≠ encodeCompE 4 rawE wCompress 4 2 wBlocks) :
+    checkDeclared 2 3 (compReadE 4 rawE wDecompress avail) = none :=
+  C18_payload_short_compressed 4 2 rawE (Or.inr rfl) wCompress wDecompress 4 2 wBlocks [513, 1027, 1541] avail
+    (by decide) (by decide) (by decide) (by decide) (by decide) (by decide) (by decide) wCodecOK hp hne
+-- the writer's block partition: `chunks 4` of the six payload bytes are these two blocks
+example : chunks 4 (itemsToBytes 2 [513, 1027, 1541]) = wBlocks := by decide
+-- an LZ4-like codec (a truncated block decodes to FEWER bytes instead of raising) is still covered by `CodecOK`:
+-- the array then comes out short and is rejected
+example :
+    let dec : Bytes → Option Bytes := fun c => if c = [9, 8] then some [1, 2] else wDecompress c
+    checkDeclared 2 3 (compReadE 4 rawE dec ([2, 0, 0, 0, 4, 0, 0, 0, 2, 0, 0, 0, 3, 0, 0, 0, 3, 0, 0, 0] ++ [9, 8])) = none ∧
+    checkDeclared 1 6 (compReadE 4 rawE dec ([1, 0, 0, 0, 4, 0, 0, 0, 0, 0, 0, 0, 3, 0, 0, 0] ++ [9, 8])) = none := by
+  decide +kernel
+-- the codec hypothesis is necessary: a codec that returns as many bytes as the block has for a truncated block lets
+-- a cut array through with the right length (not with the right values)
+example :
+    let dec : Bytes → Option Bytes := fun c => if c = [9, 8] then some [0, 0, 0, 0, 0, 0] else wDecompress c
+    checkDeclared 2 3 (compReadE 4 rawE dec ([1, 0, 0, 0, 6, 0, 0, 0, 0, 0, 0, 0, 3, 0, 0, 0] ++ [9, 8])) =
+      some [0, 0, 0] := by
+  decide +kernel
+
+/-! ### XmlLite: a small VTK file as a document tree -/
+
+open Fc.XmlLite in
+def wDoc : Doc :=
+  { decl := some (asciiOf "xml version=\"1.0\""), ws1 := [10],
+    name := asciiOf "VTKFile", attrs := [(asciiOf "type", asciiOf "ImageData"), (asciiOf "byte_order", asciiOf "LittleEndian")],
+    body := some (.text [10, 32] (.elem (asciiOf "Piece") [(asciiOf "Extent", asciiOf "0 1 0 1 0 0")]
+      (.elem (asciiOf "DataArray") [(asciiOf "Name", asciiOf "p"), (asciiOf "format", asciiOf "ascii")]
+        (.text (asciiOf "1.5 2.5 > 3") .nil) (.empty (asciiOf "DataArray") [(asciiOf "offset", asciiOf "0")] .nil))
+      (.text [10] .nil))),
+    ws2 := [10] }
+
+example : wDoc.ser = asciiOf ("<?xml version=\"1.0\"?>\n<VTKFile type=\"ImageData\" byte_order=\"LittleEndian\">\n " ++
+    "<Piece Extent=\"0 1 0 1 0 0\"><DataArray Name=\"p\" format=\"ascii\">1.5 2.5 > 3</DataArray>" ++
+    "<DataArray offset=\"0\"/></Piece>\n</VTKFile>\n") := by decide +kernel
+example : wDoc.wf = true := by decide +kernel
+example : wDoc.ser.length = 205 ∧ (wDoc.prolog ++ wDoc.rootInit).length = 203 := by decide +kernel
+-- by evaluation: cuts up to 203 are rejected, 204 and 205 are accepted (what C18_xml_prefix says for all of them)
+example : ∀ n ∈ [0, 1, 21, 22, 23, 31, 45, 75, 76, 77, 90, 140, 152, 164, 165, 189, 190, 195, 196, 202, 203],
+    XmlLite.scan (wDoc.ser.take n) = false := by decide +kernel
+example : XmlLite.scan (wDoc.ser.take 204) = true ∧ XmlLite.scan wDoc.ser = true := by decide +kernel
+-- the scanner is lenient (it is an upper bound on well-formedness): mismatched names pass, unbalanced tags do not
+example : XmlLite.scan (asciiOf "<a><b></c></a>") = true := by decide +kernel
+example : XmlLite.scan (asciiOf "<a><b></a>") = false ∧ XmlLite.scan (asciiOf "<a/><b/>") = false ∧
+    XmlLite.scan (asciiOf "<a x=\"<\"/>") = false ∧ XmlLite.scan (asciiOf "x<a/>") = false := by decide +kernel
 
 end Fc.W.Wit18
